@@ -127,6 +127,14 @@ func c05Exec(c *hlib.RunCtx, t *simrt.Tape) (*hlib.Violation, int) {
 	}
 	nprocs := 1 + t.Biased(2, 2, 3)
 	pool := namePool(t, 2+t.Draw(4), false)
+	// In a quarter of the workloads enough long names that the file has to grow
+	// (extend, re-map) while calls fail or files are deleted under it.
+	growth := t.Bool(1, 4)
+	if growth {
+		for i := 0; i < 5; i++ {
+			pool = append(pool, longName(fmt.Sprintf("G%d/", i), 3600+t.Draw(400)))
+		}
+	}
 	type thread struct {
 		p   *proc
 		ops []op
@@ -143,6 +151,13 @@ func c05Exec(c *hlib.RunCtx, t *simrt.Tape) (*hlib.Violation, int) {
 			n := 1 + t.Draw(4)
 			for k := 0; k < n; k++ {
 				ops = append(ops, op{idx: t.Draw(len(pool)), n: int64(1 + t.Draw(4))})
+			}
+			if growth {
+				// every long name once, in a tape-chosen rotation
+				off := t.Draw(5)
+				for k := 0; k < 5; k++ {
+					ops = append(ops, op{idx: len(pool) - 5 + (k+off)%5, n: 1})
+				}
 			}
 			threads = append(threads, thread{p, ops})
 		}
